@@ -83,10 +83,10 @@ def St.addFunction (s : St) (f : Nat) : St :=
 
 /-! ## enable / disable, by-count -/
 
-/-- thread 0 is the main thread.  `use_tool_id` raises `ValueError` when the id is taken. -/
+/-- thread 0 is the main thread.  The `sys.monitoring` id is claimed only when free (after the fix of F-C03c
+    `enable` never raises; the `Except` type is kept for the by-count callers). -/
 def St.enable (s : St) (t : Nat) : Except String St :=
-  if t = 0 ∧ s.tool then .error "ValueError"
-  else .ok { s with tool := s.tool || (t == 0), tracing := fun t' => if t' = t then true else s.tracing t' }
+  .ok { s with tool := s.tool || (t == 0), tracing := fun t' => if t' = t then true else s.tracing t' }
 
 def St.disable (s : St) (t : Nat) : St :=
   { s with core := s.core.clearThread t,
